@@ -110,6 +110,23 @@ Section FairFacts.
       + right. rewrite Hs. exact Hm.
   Qed.
 
+  (* the same when the labels of the execution are known to satisfy [ok] *)
+  Lemma measure_mono_lab : forall (I G : S -> Prop) (m : S -> nat) (ok : tid -> ev -> Prop) (x : exec), is_exec x ->
+    (forall k, I (st_at S x k)) -> (forall s, G s \/ ~ G s) ->
+    (forall i t e, lab S x i = Some (t, e) -> ok t e) ->
+    (forall s t e s', I s -> ~ G s -> ok t e -> step s t e = Some s' -> G s' \/ m s' <= m s) ->
+    forall i j, i <= j -> (exists j', i <= j' <= j /\ G (st_at S x j')) \/ m (st_at S x j) <= m (st_at S x i).
+  Proof.
+    intros I G m ok x Hx HI Gdec Hok Hstep i j Hij. induction j as [|j IH].
+    - right. replace i with 0 by lia. lia.
+    - destruct (Nat.eq_dec i (Datatypes.S j)) as [<-|Ne]; [right; lia|].
+      destruct IH as [(j' & Hj' & Hg)|Hm]; [lia|left; exists j'; split; [lia|exact Hg]|].
+      destruct (Gdec (st_at S x j)) as [Hg|Hng]; [left; exists j; split; [lia|exact Hg]|].
+      assert (Hs := Hx j). assert (Hl := Hok j). destruct (lab S x j) as [[t e]|].
+      + destruct (Hstep _ _ _ _ (HI j) Hng (Hl t e eq_refl) Hs) as [Hg|Hle]; [left; exists (Datatypes.S j); split; [lia|exact Hg]|right; lia].
+      + right. rewrite Hs. exact Hm.
+  Qed.
+
   (* induction on a ranking function *)
   Lemma rank_induction : forall (x : exec) (G : S -> Prop) (m : S -> nat),
     (forall i, G (st_at S x i) \/ exists j, i <= j /\ (G (st_at S x j) \/ m (st_at S x j) < m (st_at S x i))) ->
